@@ -451,3 +451,159 @@ Proof. vm_compute. reflexivity. Qed.
 Example C01_print_line_example :
   print_line oracle_trivial [VStr "t={}"; VNum (num_of_Z 1)] = Ok "t=1".
 Proof. vm_compute. reflexivity. Qed.
+
+(* ==================================================================================================
+   EVALUATOR-LEVEL never-Panic FOR THE COMPLETE BUILT-IN SET (extension C01V).
+   The per-call theorem above has side conditions that hold for genuine doubles only, and spec_float has
+   non-canonical inhabitants; so the evaluator carries the VALIDITY INVARIANT of coq/Valid.v: every number
+   literal of the program (valid_expr), every number inside every bound value incl. closures' bodies and
+   captured values (valid_cfg), every oracle result (oracle_valid) is a valid binary64
+   (SpecFloat.valid_binary 53 1024).  proofs/AllValidNum.v: every Num.v operation preserves it (Flocq);
+   AllValidOps.v / AllValidPure.v / AllValidBuiltins.v: so does every operator and every built-in arm;
+   AllValidEval.v: so does evaluation (all expression forms, every depth), and nothing panics on the way.
+   Hypotheses on the oracle: oracle_valid o (numbers in, numbers out) and oracle_display_safe o (displaying a
+   valid double does not overflow format_display_number's i32 / i64 arithmetic; two sufficient conditions
+   below, one of them C20's log10_sane_pos).  The ONE remaining explicit side condition is percentile's list
+   length: the theorems speak about Valid.builtin_all_fit o = builtin_all o except that percentile of a list
+   of more than 2^53 elements is an error — a HYPOTHESIS ON LIST LENGTHS (no resource bound of the model rules
+   such a list out), made explicit by C01_percentile_guard_is_the_only_difference.
+   ================================================================================================== *)
+Require Import Blots.Valid Blots.AllRun Blots.proofs.AllValidNum Blots.proofs.AllValidEval Blots.proofs.AllValidOps
+               Blots.proofs.AllValidBuiltins Blots.proofs.AllValid.
+
+Theorem C01_eval_no_panic_all : forall o, oracle_valid o -> oracle_display_safe o ->
+  forall release d c e, valid_expr e -> wf c -> valid_cfg c ->
+  fst (evalD release (binop_all o) (builtin_all_fit o) d c e) <> Panic.
+Proof. exact evalD_all_no_panic. Qed.
+Check C01_eval_no_panic_all : forall o, oracle_valid o -> oracle_display_safe o ->
+  forall release d c e, valid_expr e -> wf c -> valid_cfg c ->
+  fst (evalD release (binop_all o) (builtin_all_fit o) d c e) <> Panic.
+Print Assumptions C01_eval_no_panic_all.
+
+(* the invariant is preserved: a valid value, and a configuration satisfying wf and valid_cfg again *)
+Theorem C01_eval_validity_preserved_all : forall o, oracle_valid o -> oracle_display_safe o ->
+  forall release d c e r c', valid_expr e -> wf c -> valid_cfg c ->
+  evalD release (binop_all o) (builtin_all_fit o) d c e = (r, c') ->
+  (forall v, r = Ok v -> valid_value v) /\ wf c' /\ valid_cfg c'.
+Proof. exact evalD_all_preserves. Qed.
+Check C01_eval_validity_preserved_all : forall o, oracle_valid o -> oracle_display_safe o ->
+  forall release d c e r c', valid_expr e -> wf c -> valid_cfg c ->
+  evalD release (binop_all o) (builtin_all_fit o) d c e = (r, c') ->
+  (forall v, r = Ok v -> valid_value v) /\ wf c' /\ valid_cfg c'.
+Print Assumptions C01_eval_validity_preserved_all.
+
+(* FunctionDef::call at every depth, from every valid scope chain, on valid arguments *)
+Theorem C01_call_no_panic_all : forall o, oracle_valid o -> oracle_display_safe o ->
+  forall release d fr this f args st,
+  valid_frames fr -> valid_value this -> valid_value f -> valid_values args ->
+  fst (AD release (binop_all o) (builtin_all_fit o) d fr this f args st) <> Panic /\
+  (forall v, fst (AD release (binop_all o) (builtin_all_fit o) d fr this f args st) = Ok v -> valid_value v).
+Proof. exact AD_all_no_panic. Qed.
+Check C01_call_no_panic_all : forall o, oracle_valid o -> oracle_display_safe o ->
+  forall release d fr this f args st,
+  valid_frames fr -> valid_value this -> valid_value f -> valid_values args ->
+  fst (AD release (binop_all o) (builtin_all_fit o) d fr this f args st) <> Panic /\
+  (forall v, fst (AD release (binop_all o) (builtin_all_fit o) d fr this f args st) = Ok v -> valid_value v).
+Print Assumptions C01_call_no_panic_all.
+
+(* whole programs: valid inputs, valid program, any build: no statement result is a Panic, every value valid *)
+Theorem C01_program_no_panic_all : forall o, oracle_valid o -> oracle_display_safe o ->
+  forall release inputs prog, valid_inputs inputs -> valid_prog prog ->
+  Forall (fun rs => fst rs <> RFail Panic /\ valid_resultb (fst rs) = true)
+         (snd (run (eval_top release (binop_all o) (builtin_all_fit o)) (init_session inputs) prog)).
+Proof. exact program_all_no_panic. Qed.
+Check C01_program_no_panic_all : forall o, oracle_valid o -> oracle_display_safe o ->
+  forall release inputs prog, valid_inputs inputs -> valid_prog prog ->
+  Forall (fun rs => fst rs <> RFail Panic /\ valid_resultb (fst rs) = true)
+         (snd (run (eval_top release (binop_all o) (builtin_all_fit o)) (init_session inputs) prog)).
+Print Assumptions C01_program_no_panic_all.
+
+(* the per-call theorem for the REAL dispatcher with its side conditions discharged from validity: what is left of
+   C01_builtin_call_no_panic_all's hypotheses is the list length of percentile *)
+Theorem C01_builtin_call_no_panic_valid_all : forall o, oracle_valid o -> oracle_display_safe o ->
+  forall cb b args st, vcb cb ->
+  can_accept (builtin_arity b) (Datatypes.length args) = true -> valid_values args ->
+  (b = B_percentile -> percentile_fits args = true) ->
+  fst (builtin_all o cb b args st) <> Panic /\
+  (forall v, fst (builtin_all o cb b args st) = Ok v -> valid_value v).
+Proof. exact builtin_all_call_valid. Qed.
+Check C01_builtin_call_no_panic_valid_all : forall o, oracle_valid o -> oracle_display_safe o ->
+  forall cb b args st, vcb cb ->
+  can_accept (builtin_arity b) (Datatypes.length args) = true -> valid_values args ->
+  (b = B_percentile -> percentile_fits args = true) ->
+  fst (builtin_all o cb b args st) <> Panic /\
+  (forall v, fst (builtin_all o cb b args st) = Ok v -> valid_value v).
+Print Assumptions C01_builtin_call_no_panic_valid_all.
+
+Theorem C01_percentile_guard_is_the_only_difference : forall o cb b args st,
+  (b = B_percentile -> percentile_fits args = true) ->
+  builtin_all_fit o cb b args st = builtin_all o cb b args st.
+Proof. exact fit_is_the_only_difference. Qed.
+Check C01_percentile_guard_is_the_only_difference : forall o cb b args st,
+  (b = B_percentile -> percentile_fits args = true) ->
+  builtin_all_fit o cb b args st = builtin_all o cb b args st.
+Print Assumptions C01_percentile_guard_is_the_only_difference.
+
+(* the complete operator table on valid operands: never Panic, a valid value *)
+Theorem C01_operators_valid_all : forall o, oracle_valid o ->
+  forall cb op l r st, vcb cb -> valid_value l -> valid_value r ->
+  fst (binop_all o cb op l r st) <> Panic /\ (forall v, fst (binop_all o cb op l r st) = Ok v -> valid_value v).
+Proof. exact binop_all_valid. Qed.
+Check C01_operators_valid_all : forall o, oracle_valid o ->
+  forall cb op l r st, vcb cb -> valid_value l -> valid_value r ->
+  fst (binop_all o cb op l r st) <> Panic /\ (forall v, fst (binop_all o cb op l r st) = Ok v -> valid_value v).
+Print Assumptions C01_operators_valid_all.
+
+(* the AXIOM-FREE core: the evaluator induction for EVERY operator / built-in implementation that is
+   valid-in / valid-out and panic-free on valid arguments (the Flocq axioms enter only where the hypotheses are
+   discharged: the arithmetic of Num.v is proved valid through Flocq's correctness lemmas) *)
+Theorem C01_eval_no_panic_valid_generic : forall release bi bu,
+  (forall cb op l r st, vcb cb -> valid_value l -> valid_value r -> vres (fst (bi cb op l r st))) ->
+  (forall cb b args st, vcb cb -> can_accept (builtin_arity b) (Datatypes.length args) = true ->
+     valid_values args -> vres (fst (bu cb b args st))) ->
+  (forall n, valid_num n -> vres (factorial_val release n)) ->
+  forall d c e, valid_expr e -> Inv c -> good valid_value (evalD release bi bu d c e).
+Proof. exact evalD_ok. Qed.
+Check C01_eval_no_panic_valid_generic : forall release bi bu,
+  (forall cb op l r st, vcb cb -> valid_value l -> valid_value r -> vres (fst (bi cb op l r st))) ->
+  (forall cb b args st, vcb cb -> can_accept (builtin_arity b) (Datatypes.length args) = true ->
+     valid_values args -> vres (fst (bu cb b args st))) ->
+  (forall n, valid_num n -> vres (factorial_val release n)) ->
+  forall d c e, valid_expr e -> Inv c -> good valid_value (evalD release bi bu d c e).
+Print Assumptions C01_eval_no_panic_valid_generic.
+
+(* oracle_display_safe: two sufficient conditions.  (1) for ANY display library: floor(log10 a) as i32 within
+   +-2000 for every a;  (2) C20's hypothesis on libm — log10_sane_pos, the SAME statement as Properties/C20.v's,
+   sampled on the real f64::log10 by C20's LOG10SANE stream — when the four std functions under the display are C20's
+   executable models (proved there to meet their specifications; the table oracle of the ALL stream has exactly them) *)
+Theorem C01_display_safe_of_log10_in_range : forall o,
+  (forall a, (Z.abs (as_i32 (nfloor (o_log10 o a))) <= 2000)%Z) -> oracle_display_safe o.
+Proof. exact display_safe_of_log10_in_range. Qed.
+Check C01_display_safe_of_log10_in_range : forall o,
+  (forall a, (Z.abs (as_i32 (nfloor (o_log10 o a))) <= 2000)%Z) -> oracle_display_safe o.
+Print Assumptions C01_display_safe_of_log10_in_range.
+Theorem C01_display_safe_of_log10_sane_pos : forall o,
+  log10_sane_pos (o_log10 o) -> display_library_exec o -> oracle_display_safe o.
+Proof. exact display_safe_of_log10_sane_pos. Qed.
+Check C01_display_safe_of_log10_sane_pos : forall o,
+  log10_sane_pos (o_log10 o) -> display_library_exec o -> oracle_display_safe o.
+Print Assumptions C01_display_safe_of_log10_sane_pos.
+
+(* the lookup-table oracle the ALL stream runs is valid for EVERY table the harness can dump (its numbers are
+   64-bit patterns, and every 64-bit pattern is a double: AllValidNum.num_of_bits_valid) and has C20's display library *)
+Theorem C01_table_oracle_valid : forall T, oracle_valid (oracle_of T) /\ display_library_exec (oracle_of T).
+Proof. intros T. split; [apply oracle_of_valid|apply oracle_of_display_library]. Qed.
+Check C01_table_oracle_valid : forall T, oracle_valid (oracle_of T) /\ display_library_exec (oracle_of T).
+Print Assumptions C01_table_oracle_valid.
+
+(* ---- every hypothesis is satisfiable; the invariant is not vacuous ---- *)
+Example C01_oracle_hypotheses_satisfiable : oracle_valid oracle_trivial /\ oracle_display_safe oracle_trivial.
+Proof. split; [exact oracle_trivial_valid|exact oracle_trivial_display_safe]. Qed.
+Example C01_valid_initial : forall inputs, valid_inputs inputs ->
+  wf (s_cfg (init_session inputs)) /\ valid_cfg (s_cfg (init_session inputs)).
+Proof. intros inputs H. exact (init_session_Inv inputs H). Qed.
+Example C01_valid_program_example : valid_prog ex_all_prog /\ valid_inputs [].
+Proof. split; vm_compute; reflexivity. Qed.
+(* a non-canonical inhabitant of spec_float: 2^63 with exponent 0 is not a double (64-bit mantissa) *)
+Example C01_invalid_number_exists : valid_numb (S754_finite true 9223372036854775808 0) = false.
+Proof. vm_compute. reflexivity. Qed.
